@@ -55,16 +55,20 @@ def py_envval(U, ev, dim, leaf=None):
 
 
 # ------------------------------------------------------------------------------ random descriptions
+POOLS = {"space": list(si.SPACE), "time": list(si.TIME), "amount": list(si.AMOUNT)}
+
+
 def rand_sys(rng, p_default=0.3):
     if rng.random() < p_default:
         return ["µm", "s", "molecule"]
-    return [rng.choice(si.SPACE), rng.choice(si.TIME), rng.choice(si.AMOUNT)]
+    return [rng.choice(POOLS["space"]), rng.choice(POOLS["time"]), rng.choice(POOLS["amount"])]
 
 
 def rand_val(rng, lo=-2, hi=2, zero=0.15):
     if rng.random() < zero:
         return 0.0
-    return round(rng.uniform(1, 10), 2) * 10.0 ** rng.randint(lo, hi)
+    # short binary mantissas keep the exact rationals of the model small (vm_compute cost)
+    return rng.randint(1, 40) / 4.0 * 2.0 ** rng.randint(3 * lo, 3 * hi)
 
 
 def rand_qty(rng, owner_sys, zero=0.15, lo=-2, hi=2):
@@ -84,9 +88,20 @@ def rand_envval(rng, envs, mk, p_dict=0.5):
     return {"dict": [[k, mk()] for k in keys]}
 
 
-def rand_space(rng, nenv, max_cells=8, kind=None, hetero_units=True):
+def rand_cubic(rng):
+    """(volume quantity, edge quantity) with volume = edge^3 exactly (edge = k/4)."""
+    h = rng.randint(1, 12) / 4.0
+    if rng.random() < 0.5:
+        return {"bare": h ** 3}, {"bare": h}
+    s = rand_sys(rng, 0.2)
+    return {"v": h ** 3, "sys": s}, {"v": h, "sys": s}
+
+
+def rand_space(rng, nenv, max_cells=8, kind=None, hetero_units=True, cubic=False, self_loops=False):
     kind = kind or rng.choice(["grid", "graph"])
     units = rand_sys(rng)
+    if cubic:
+        return rand_space_cubic(rng, nenv, max_cells, kind, units, hetero_units)
     if kind == "grid":
         while True:
             w, h, d = rng.randint(1, 4), rng.randint(1, 3), rng.randint(1, 2)
@@ -110,7 +125,60 @@ def rand_space(rng, nenv, max_cells=8, kind=None, hetero_units=True):
     return {"type": "graph", "nodes": nodes, "edges": edges, "units": units}
 
 
-def rand_desc(rng, max_species=3, max_cells=8, reactions=False, space_kind=None, max_env=3):
+def rand_space_cubic(rng, nenv, max_cells, kind, units, hetero_units):
+    if kind == "grid":
+        while True:
+            w, h, d = rng.randint(1, 4), rng.randint(1, 3), rng.randint(1, 2)
+            if w * h * d <= max_cells:
+                break
+        vol, edge = rand_cubic(rng)
+        return {"type": "grid", "w": w, "h": h, "d": d, "per": [rng.random() < 0.4 for _ in range(3)],
+                "env": [rng.randrange(nenv) for _ in range(w * h * d)], "vol": vol, "edge": edge, "units": units}
+    n = rng.randint(1, max_cells)
+    nodes = []
+    for _ in range(n):
+        vol, edge = rand_cubic(rng)
+        nodes.append({"vol": vol, "edge": edge, "env": rng.randrange(nenv),
+                      "units": (rand_sys(rng) if hetero_units and rng.random() < 0.5 else units)})
+    edges, seen = [], set()
+    for _ in range(rng.randint(0, 2 * n)):
+        i, j = rng.randrange(n), rng.randrange(n)
+        if i == j or (min(i, j), max(i, j)) in seen:
+            continue
+        seen.add((min(i, j), max(i, j)))
+        eu = rand_sys(rng) if hetero_units and rng.random() < 0.5 else units
+        edges.append({"i": i, "j": j, "surface": rand_qty(rng, eu, zero=0.0, lo=-1, hi=1),
+                      "distance": rand_qty(rng, eu, zero=0.0, lo=-1, hi=1), "units": eu})
+    return {"type": "graph", "nodes": nodes, "edges": edges, "units": units}
+
+
+def rand_reaction(rng, labels, envs):
+    def side():
+        d = {}
+        for _ in range(rng.choice([0, 1, 1, 2, 2, 3])):
+            l = rng.choice(labels)
+            d[l] = d.get(l, 0) + rng.choice([1, 1, 2])
+        while sum(d.values()) > 4:
+            k = rng.choice(list(d))
+            d[k] -= 1
+            if d[k] == 0:
+                del d[k]
+        return d
+    ru = rand_sys(rng)
+    return {"sub": side(), "prod": side(), "units": ru,
+            "kf": rand_envval(rng, envs, lambda: rand_qty(rng, ru, zero=0.2, lo=-1, hi=1)),
+            "kr": rand_envval(rng, envs, lambda: rand_qty(rng, ru, zero=0.3, lo=-1, hi=1))}
+
+
+def edge_list(desc):
+    """edge quantity descriptions per cell (grid: a single one), with the system they are bare in"""
+    sp = desc["space"]
+    if sp["type"] == "grid":
+        return [(sp["edge"], sp["units"])]
+    return [(n["edge"], n["units"]) for n in sp["nodes"]]
+
+
+def rand_desc(rng, max_species=3, max_cells=8, reactions=False, space_kind=None, max_env=3, cubic=False, max_reactions=3):
     nenv = rng.randint(1, max_env)
     envs = ["e%d" % i for i in range(nenv)]
     if rng.random() < 0.2:
@@ -123,7 +191,10 @@ def rand_desc(rng, max_species=3, max_cells=8, reactions=False, space_kind=None,
                         "dens": rand_envval(rng, envs, lambda: rand_qty(rng, su)),
                         "chstt": rand_envval(rng, envs, lambda: rng.random() < 0.4, p_dict=0.4)})
     desc = {"envs": envs, "net_units": rand_sys(rng), "sys_units": rand_sys(rng), "species": species,
-            "reactions": [], "space": rand_space(rng, nenv, max_cells, space_kind)}
+            "reactions": [], "space": rand_space(rng, nenv, max_cells, space_kind, cubic=cubic)}
+    if reactions:
+        labels = [s["label"] for s in species]
+        desc["reactions"] = [rand_reaction(rng, labels, envs) for _ in range(rng.randint(0, max_reactions))]
     return desc
 
 
